@@ -10,9 +10,10 @@ import (
 	"strings"
 
 	"github.com/datastax/go-cassandra-native-protocol/primitive"
+	"verifharness/hlib"
 )
 
-func init() { commands["c19"] = c19 }
+
 
 type c19Method struct {
 	Name   string   `json:"name"`
@@ -253,7 +254,7 @@ func c19(args []string, seed int64) {
 		if t.Kind == "int" {
 			ctor, ok := intCtor[t.Name]
 			if !ok {
-				emit(map[string]interface{}{"kind": "unregistered", "type": t.Name})
+				hlib.Emit(map[string]interface{}{"kind": "unregistered", "type": t.Name})
 				continue
 			}
 			d, ex := intDomain(t, rnd, thorough)
@@ -264,7 +265,7 @@ func c19(args []string, seed int64) {
 		} else {
 			ctor, ok := strCtor[t.Name]
 			if !ok {
-				emit(map[string]interface{}{"kind": "unregistered", "type": t.Name})
+				hlib.Emit(map[string]interface{}{"kind": "unregistered", "type": t.Name})
 				continue
 			}
 			for _, s := range strDomain(t, table) {
@@ -280,7 +281,7 @@ func c19(args []string, seed int64) {
 				}
 				rec["values"] = dom
 			}
-			emit(rec)
+			hlib.Emit(rec)
 		}
 		for _, m := range t.Methods {
 			if len(m.Params) > 1 || (m.Result != "bool" && m.Result != "string") {
@@ -303,7 +304,7 @@ func c19(args []string, seed int64) {
 				for _, r := range rs {
 					meth := r.MethodByName(m.Name)
 					if !meth.IsValid() {
-						emit(map[string]interface{}{"kind": "nomethod", "type": t.Name, "method": m.Name})
+						hlib.Emit(map[string]interface{}{"kind": "nomethod", "type": t.Name, "method": m.Name})
 						break
 					}
 					res := meth.Call(as)[0]
@@ -323,7 +324,7 @@ func c19(args []string, seed int64) {
 					rec["arg"] = valStr(as[0])
 					rec["argtype"] = m.Params[0]
 				}
-				emit(rec)
+				hlib.Emit(rec)
 			}
 		}
 	}
@@ -349,7 +350,7 @@ func c19(args []string, seed int64) {
 			for _, f := range first {
 				dom = append(dom, valStr(f))
 			}
-			emit(map[string]interface{}{"kind": "checkdomain", "name": n, "values": dom})
+			hlib.Emit(map[string]interface{}{"kind": "checkdomain", "name": n, "values": dom})
 		}
 		for _, s := range seconds {
 			pos := []string{}
@@ -366,7 +367,12 @@ func c19(args []string, seed int64) {
 			if len(h.params) == 2 {
 				rec["arg"] = valStr(s)
 			}
-			emit(rec)
+			hlib.Emit(rec)
 		}
 	}
+}
+
+func main() {
+	defer hlib.Flush()
+	c19(os.Args[1:], hlib.Seed())
 }
